@@ -2,10 +2,12 @@ import argparse
 import os
 import sys
 
-from rtmon import runner
-
 
 def main():
+    if len(sys.argv) > 1 and sys.argv[1] == "--selftest":
+        from rtmon import oracle_selftest
+        sys.exit(oracle_selftest.main())
+    from rtmon import runner
     ap = argparse.ArgumentParser()
     ap.add_argument("prop")
     ap.add_argument("--tier", default=os.environ.get("VERIF_TIER", "quick"))
